@@ -151,6 +151,8 @@ func runC14(a *runArgs) error {
 		Strata: map[string]int{}, Dist: map[string]int{}, Known: map[string]int{},
 		Rule: "every basic kind, named types over each kind, pointers, slices, maps, channels, functions, interfaces, arrays, structs, aliases, generic instances, types of other packages with unexported fields (time.Time, bytes.Buffer); thorough adds random composite towers; distinct = distinct types; all non-trivial"}
 	n := 0
+	var uTypes []types.Type
+	var uSrcs, uZero []string
 	for _, src := range exprs {
 		tv, err := types.Eval(fset, tpkg, pos, src)
 		if err != nil {
@@ -235,6 +237,9 @@ func runC14(a *runArgs) error {
 				infStr = it.String()
 			}
 		}
+		uTypes = append(uTypes, T)
+		uSrcs = append(uSrcs, src)
+		uZero = append(uZero, text)
 		c := c14Case{T: src, Expr: text, RefTyped: len(ok) == 2 && ok[0], RefInf: infStr}
 		m.DirectRuns++
 		if !c.RefTyped {
@@ -249,8 +254,175 @@ func runC14(a *runArgs) error {
 		n++
 	}
 	cw.flush()
+	c14Users(m, a, pkg, tpkg, uTypes, uSrcs, uZero)
 	m.Cases = n
 	m.Distinct = n
 	m.Files = cw.files
 	return writeJSON(filepath.Join(a.Out, "meta.json"), m)
+}
+
+// c14Users: the users of Zero named by the property — error-return padding (ReturnErr), omitted
+// optional arguments, and zero-argument conversions T().  Each generated function is printed,
+// type-checked together with the universe declarations, and every synthesised expression must be
+// the zero value expression of the type at ITS position.
+func c14Users(m *meta, a *runArgs, pkg *gogen.Package, tpkg *types.Package, ts []types.Type, srcs, zeros []string) {
+	if len(ts) == 0 {
+		return
+	}
+	r := rand.New(rand.NewSource(a.Seed + 7))
+	rounds := 60
+	if a.Tier == "thorough" {
+		rounds = 600
+	}
+	type want struct {
+		fn    string
+		kind  string
+		exprs []string // expected expressions in order
+		types []string
+	}
+	var wants []want
+	errT := types.Universe.Lookup("error").Type()
+	cb := pkg.CB()
+	for k := 0; k < rounds; k++ {
+		n := 1 + r.Intn(3)
+		idx := make([]int, n)
+		for i := range idx {
+			idx[i] = r.Intn(len(ts))
+		}
+		fault := func(f func()) (msg string) {
+			defer func() {
+				if e := recover(); e != nil {
+					msg = fmt.Sprint(e)
+				}
+			}()
+			f()
+			return ""
+		}
+		var exp, tys []string
+		for _, i := range idx {
+			exp = append(exp, zeros[i])
+			tys = append(tys, srcs[i])
+		}
+		// (a) error-return padding
+		name := fmt.Sprintf("R%d", k)
+		msg := fault(func() {
+			var res []*types.Var
+			for _, i := range idx {
+				res = append(res, types.NewParam(token.NoPos, tpkg, "", ts[i]))
+			}
+			res = append(res, types.NewParam(token.NoPos, tpkg, "", errT))
+			e := types.NewParam(token.NoPos, tpkg, "e", errT)
+			pkg.NewFunc(nil, name, types.NewTuple(e), types.NewTuple(res...), false).BodyStart(pkg).Val(e).ReturnErr(false).End()
+		})
+		m.DirectRuns++
+		m.Dist["user: ReturnErr"]++
+		if msg != "" {
+			m.Direct = append(m.Direct, directViolation{Case: k, What: fmt.Sprintf("ReturnErr in a function returning (%s, error) faults: %s", strings.Join(tys, ", "), msg), Replay: map[string]any{"kind": "ReturnErr", "types": tys}})
+		} else {
+			wants = append(wants, want{name, "ReturnErr", append(append([]string{}, exp...), "e"), tys})
+		}
+		// (b) omitted optional arguments
+		oname := fmt.Sprintf("O%d", k)
+		msg = fault(func() {
+			ps := []*types.Var{types.NewParam(token.NoPos, tpkg, "a", types.Typ[types.Int])}
+			for j, i := range idx {
+				ps = append(ps, pkg.NewParam(token.NoPos, fmt.Sprintf("o%d", j), ts[i], true))
+			}
+			fn := pkg.NewFunc(nil, oname, types.NewTuple(ps...), nil, false)
+			fn.BodyStart(pkg).End()
+			pkg.NewFunc(nil, "call"+oname, nil, nil, false).BodyStart(pkg).Val(fn.Func).Val(1).Call(1).EndStmt().End()
+		})
+		m.DirectRuns++
+		m.Dist["user: optional arguments"]++
+		if msg != "" {
+			m.Direct = append(m.Direct, directViolation{Case: k, What: fmt.Sprintf("calling a function with omitted optional parameters (%s) faults: %s", strings.Join(tys, ", "), msg), Replay: map[string]any{"kind": "optional", "types": tys}})
+		} else {
+			wants = append(wants, want{"call" + oname, "optional", append([]string{"1"}, exp...), tys})
+		}
+		// (c) T()
+		vname := fmt.Sprintf("Z%d", k)
+		msg = fault(func() {
+			cb.NewVarStart(ts[idx[0]], vname).Typ(ts[idx[0]]).Call(0).EndInit(1)
+		})
+		m.DirectRuns++
+		m.Dist["user: T()"]++
+		if msg != "" {
+			m.Direct = append(m.Direct, directViolation{Case: k, What: fmt.Sprintf("the zero-argument conversion %s() faults: %s", tys[0], msg), Replay: map[string]any{"kind": "T()", "types": tys[:1]}})
+		} else {
+			wants = append(wants, want{vname, "T()", exp[:1], tys[:1]})
+		}
+	}
+	var out bytes.Buffer
+	if err := pkg.WriteTo(&out); err != nil {
+		m.Direct = append(m.Direct, directViolation{What: "WriteTo faults: " + err.Error(), Replay: map[string]any{"kind": "users"}})
+		return
+	}
+	fset := token.NewFileSet()
+	gf, err := parser.ParseFile(fset, "gen.go", out.Bytes(), 0)
+	if err != nil {
+		m.Direct = append(m.Direct, directViolation{What: "the generated file does not parse: " + err.Error(), Replay: map[string]any{"kind": "users"}})
+		return
+	}
+	df, _ := parser.ParseFile(fset, "decls.go", c14Decls, 0)
+	var errs []string
+	(&types.Config{Importer: importer.ForCompiler(fset, "source", nil), Error: func(e error) {
+		if !strings.Contains(e.Error(), "declared and not used") && !strings.Contains(e.Error(), "imported and not used") {
+			errs = append(errs, e.Error())
+		}
+	}}).Check("p", fset, []*ast.File{df, gf}, nil)
+	lines := strings.Split(out.String(), "\n")
+	for _, e := range errs {
+		var ln int
+		line := ""
+		if _, err := fmt.Sscanf(e, "gen.go:%d:", &ln); err == nil && ln >= 1 && ln <= len(lines) {
+			line = strings.TrimSpace(lines[ln-1])
+		}
+		m.Direct = append(m.Direct, directViolation{What: fmt.Sprintf("Go rejects the generated code: %s; line: %s", e, line), Replay: map[string]any{"kind": "users", "error": e, "line": line}})
+		if len(m.Direct) > 20 {
+			break
+		}
+	}
+	text := func(x ast.Expr) string {
+		var b bytes.Buffer
+		format.Node(&b, token.NewFileSet(), x)
+		return b.String()
+	}
+	got := map[string][]string{}
+	for _, d := range gf.Decls {
+		switch d := d.(type) {
+		case *ast.FuncDecl:
+			if d.Body == nil || len(d.Body.List) == 0 {
+				continue
+			}
+			switch st := d.Body.List[len(d.Body.List)-1].(type) {
+			case *ast.ReturnStmt:
+				for _, x := range st.Results {
+					got[d.Name.Name] = append(got[d.Name.Name], text(x))
+				}
+			case *ast.ExprStmt:
+				if c, ok := st.X.(*ast.CallExpr); ok {
+					for _, x := range c.Args {
+						got[d.Name.Name] = append(got[d.Name.Name], text(x))
+					}
+				}
+			}
+		case *ast.GenDecl:
+			for _, sp := range d.Specs {
+				if vs, ok := sp.(*ast.ValueSpec); ok && len(vs.Names) == 1 && len(vs.Values) == 1 {
+					got[vs.Names[0].Name] = []string{text(vs.Values[0])}
+				}
+			}
+		}
+	}
+	for _, w := range wants {
+		g := got[w.fn]
+		squash := func(l []string) string { return strings.Join(strings.Fields(strings.Join(l, ";")), "") }
+		if squash(g) != squash(w.exprs) {
+			m.Direct = append(m.Direct, directViolation{What: fmt.Sprintf("%s over (%s): emitted [%s], the zero values of the types in order are [%s]", w.kind, strings.Join(w.types, ", "), strings.Join(g, " ; "), strings.Join(w.exprs, " ; ")),
+				Replay: map[string]any{"kind": w.kind, "types": w.types, "emitted": g, "expected": w.exprs}})
+			if len(m.Direct) > 30 {
+				break
+			}
+		}
+	}
 }
